@@ -13,7 +13,6 @@
 EXTENDS DepResolve, Json, IOUtils
 Trace == ndJsonDeserialize(IOEnv.TRACE_FILE)
 VARIABLE l
-TraceExpand(x) == [decl |-> <<>>, consts |-> <<>>, ns |-> 1]       \* the machine variables are parked here
 
 ConvDecl(s) == [i \in DOMAIN s |-> [n |-> s[i].n, k |-> s[i].k, deps |-> Range(s[i].deps), draws |-> s[i].draws]]
 ConvHeads(s) == [i \in DOMAIN s |-> [h |-> s[i].h, k |-> s[i].k, deps |-> Range(s[i].deps), draws |-> s[i].draws]]
